@@ -12,6 +12,10 @@
      CPureTwin       neither decoder touches its reader; the two bodies are the same text up to local names (the same function of the header)
      CRawBody        reader path: readBoxBody, then a box built from `data`; SR path: the same box built from
                      sr.ReadBytes(hdr.payloadLen()), returned with sr.AccError() (the opaque leaf std_r / std_sr of the framing model)
+     CBodyFn         reader path: readBoxBody, then REST(data); SR path: REST(sr.ReadBytes(hdr.payloadLen())) - bound to a local first (df_accerr:
+                     followed by `if sr.AccError() != nil { return nil, sr.AccError() }`) or in place -, REST the same text up to local names,
+                     not touching the reader (the tail `x, err := G(..); if err != nil { return nil, err }; return V, nil` may be
+                     `return V, err` on the SR side): the same pure function of the body bytes (C03_bodyfn_pair_agree)
      CSeparate       anything else
    df_relative: the SR decoder uses its reader only through position-relative operations (hypothesis local_xprog of
    C03_delegate_sound_ext). *)
@@ -19,16 +23,16 @@ From Coq Require Import List String NArith Bool.
 Import ListNotations.
 Open Scope string_scope.
 
-Inductive dclass := CDelegating | CContainerTwin | CContainerBody | CPureTwin | CRawBody | CSeparate.
+Inductive dclass := CDelegating | CContainerTwin | CContainerBody | CPureTwin | CRawBody | CBodyFn | CSeparate.
 Record decfact := mkdec { df_key : list N; df_r : string; df_s : string; df_class : dclass; df_accerr : bool; df_relative : bool }.
 
-Inductive eclass := EDelegating | EContainer | EHeader | ETwin | ESeparate.
+Inductive eclass := EDelegating | EPrelude | EContainer | EHeader | ETwin | ESeparate.
 Record encfact := mkenc { ef_type : string; ef_class : eclass }.
 
 Definition dclass_eqb (a b : dclass) : bool :=
   match a, b with
   | CDelegating, CDelegating | CContainerTwin, CContainerTwin | CContainerBody, CContainerBody | CSeparate, CSeparate
-  | CPureTwin, CPureTwin | CRawBody, CRawBody => true
+  | CPureTwin, CPureTwin | CRawBody, CRawBody | CBodyFn, CBodyFn => true
   | _, _ => false
   end.
 
@@ -45,7 +49,7 @@ Definition c03_separate_proved : list string :=
   ; "DecodeTfdt"   (* C03_fragment_progs_local + C03_prog_pair_agree *) ].
 (* separately written pairs that are explored only (both paths run on every harvested / generated box by the search) *)
 Definition c03_separate_explored : list string :=
-  [ "DecodeAudioSampleEntry"; "DecodeAv1C"; "DecodeAvcC"; "DecodeDac3"; "DecodeDec3"; "DecodeDref"; "DecodeHvcC"; "DecodeStyp"; "DecodeVttc" ].
+  [ "DecodeAudioSampleEntry"; "DecodeDref"; "DecodeVttc" ].
 (* delegating pairs whose SR decoder is NOT position-relative, with their own pair theorem *)
 Definition c03_delegating_nonrelative_proved : list string :=
   [ "DecodeVisualSampleEntry"  (* C03_vse_pair_agree_canonical *) ].
@@ -53,14 +57,16 @@ Definition c03_delegating_nonrelative_proved : list string :=
    DecodeBoxSR, a decoder table): the delegation shape is still REQUIRED of them; that the SR decoder behaves the same on a private body reader is explored *)
 Definition c03_delegating_nonrelative_explored : list string :=
   [ "DecodeEsds"; "DecodeEvte"; "DecodeMeta"; "DecodeSgpd"; "DecodeStpp"; "DecodeTrep"; "DecodeWvtt" ].
-(* container twins whose SR decoder additionally returns sr.AccError() (KCont of the framing model returns nil): explored *)
-Definition c03_twin_accerr_explored : list string := [ "DecodeEdts"; "DecodeSinf"; "DecodeStbl" ].
+(* container twins whose SR decoder additionally returns sr.AccError() (edts sinf stbl): on canonical strings the test never fires
+   (C03_twin_accerr_canonical); none is left as explored *)
+Definition c03_twin_accerr_explored : list string := [ ].
 
 Definition dec_ok (f : decfact) : bool :=
   match df_class f with
   | CDelegating => df_relative f || smem (df_r f) c03_delegating_nonrelative_proved || smem (df_r f) c03_delegating_nonrelative_explored
-  | CContainerTwin => negb (df_accerr f) || smem (df_r f) c03_twin_accerr_explored
+  | CContainerTwin => true          (* KCont of the framing model; with df_accerr: C03_twin_accerr_canonical *)
   | CContainerBody => true          (* KContBody accerr of the framing model, both values *)
+  | CBodyFn => true                 (* C03_bodyfn_pair_agree *)
   | CPureTwin => true               (* one function of (hdr, startPos), written twice *)
   | CRawBody => true                (* C03_std_canon_leaf: the opaque leaf of the framing model *)
   | CSeparate => smem (df_r f) c03_separate_proved || smem (df_r f) c03_separate_explored
@@ -72,9 +78,10 @@ Definition dec_coverage (f : decfact) : coverage :=
   match df_class f with
   | CDelegating => if df_relative f then CovDelegateSound
                    else if smem (df_r f) c03_delegating_nonrelative_proved then CovPairTheorem else CovExplored
-  | CContainerTwin => if df_accerr f then CovExplored else CovFraming
+  | CContainerTwin => CovFraming
   | CContainerBody => CovFraming
   | CPureTwin | CRawBody => CovFraming
+  | CBodyFn => CovPairTheorem
   | CSeparate => if smem (df_r f) c03_separate_proved then CovPairTheorem else CovExplored
   end.
 Definition count_cov (c : coverage) (l : list decfact) : nat :=
@@ -86,14 +93,20 @@ Definition count_cov (c : coverage) (l : list decfact) : nat :=
 Definition c03_enc_separate_proved : list string :=
   [ "MdatBox" (* C03_mdat_enc_agree *); "StsdBox" (* C03_stsd_enc_agree *); "VisualSampleEntryBox" (* C03_vse_enc_agree *) ].
 Definition c03_enc_twin_proved : list string :=
-  [ "File"; "MediaSegment"; "Fragment"; "InitSegment" (* C03_encode_agree: the four are modelled in C03Model.v *) ].
+  [ "File"; "MediaSegment"; "Fragment"; "InitSegment" (* C03_encode_agree: the four are modelled in C03Model.v *)
+  ; "MoofBox" (* C03_encode_state_agree: hmoof_w / hmoof_sw of C03EncHistModel.v *) ].
 Definition c03_enc_separate_explored : list string :=
-  [ "AudioSampleEntryBox"; "DrefBox"; "MetaBox"; "SencBox"; "TrepBox"; "WvttBox" ].
-Definition c03_enc_twin_explored : list string := [ "Av1CBox"; "HvcCBox"; "MoofBox" ].
+  [ "AudioSampleEntryBox"; "DrefBox"; "MetaBox"; "TrepBox"; "WvttBox" ].
+(* Encode = `b.m(); <the delegation pattern>` with EncodeSW starting with the same `b.m()`: equal provided m is idempotent
+   (C03_enc_prelude_agree); the types whose prelude is known to be idempotent *)
+Definition c03_enc_prelude_proved : list string :=
+  [ "SencBox" (* setSubSamplesUsedFlag: C02AggSencProofs.senc_setflag_idem, instantiated in C03_enc_prelude_agree *) ].
+Definition c03_enc_twin_explored : list string := [ "Av1CBox"; "HvcCBox" ].
 
 Definition enc_ok (f : encfact) : bool :=
   match ef_class f with
   | EDelegating => true            (* C03_enc_delegate_agree *)
+  | EPrelude => smem (ef_type f) c03_enc_prelude_proved
   | EContainer => true             (* C03_encode_agree: EncodeContainer = EncodeContainerSW *)
   | EHeader => true                (* EncodeHeader / EncodeHeaderSW only: the header case of C03_encode_agree (no children) *)
   | ETwin => smem (ef_type f) c03_enc_twin_proved || smem (ef_type f) c03_enc_twin_explored
@@ -110,3 +123,12 @@ Definition sw_run (cap : N) (out : option (list N)) : option (list N) :=
   end.
 Definition enc_delegating_w (size : N) (out : option (list N)) : option (list N) := sw_run size out.
 Definition enc_direct_sw (cap : N) (out : option (list N)) : option (list N) := sw_run cap out.
+
+(* ------------------------------------------------------------------ Encode = prelude; delegation pattern, EncodeSW = prelude; body *)
+(* p: the prelude on the box state (SencBox.setSubSamplesUsedFlag); size / out: Size() and what the rest of EncodeSW writes, as functions of the state *)
+Definition enc_prelude_w {S} (p : S -> S) (size : S -> N) (out : S -> option (list N)) (s : S) : S * option (list N) :=
+  let s1 := p s in                      (* b.m() *)
+  let s2 := p s1 in                     (* b.EncodeSW(sw) starts with b.m() *)
+  (s2, sw_run (size s1) (out s2)).      (* sw := NewFixedSliceWriter(int(b.Size())) was sized BEFORE the second b.m() *)
+Definition enc_prelude_sw {S} (p : S -> S) (cap : N) (out : S -> option (list N)) (s : S) : S * option (list N) :=
+  let s1 := p s in (s1, sw_run cap (out s1)).
